@@ -359,7 +359,7 @@ int convert_msa_to_internal(struct msa* msa, int type)
         for(i = 0; i <  msa->numseq;i++){
                 seq = msa->sequences[i];
                 for(j =0 ; j < seq->len;j++){
-                        if(t[(int) seq->seq[j]] == -1){
+                        if((seq->seq[j] & 0x80) || t[(int) seq->seq[j]] == -1){
                                 if(!msa->quiet){
                                         WARNING_MSG("there should be no character not matching the alphabet");
                                         WARNING_MSG("offending character: >>>%c<<<", seq->seq[j]);
